@@ -70,8 +70,13 @@ def rule_order(ck: Check, repo: Repo) -> None:
 
     class H(Hooks):
         def atom(self, text, node, it):
-            if text == "(obj.project.root / '.reuse/dep5').exists()":
+            from ..rules import path_norm
+            t = path_norm(text)
+            if t in ("(obj.project.root / '.reuse' / 'dep5').exists()", "(<p0>.project.root / '.reuse' / 'dep5').exists()"):
                 return "dep5_exists"
+            # the guard may also require that the project's global licensing IS a dep5 (it is whenever the file exists and parsed)
+            if re.fullmatch(r"isinstance\((obj\.project\.global_licensing|\w+), ReuseDep5\)", t):
+                return True
             return None
 
         def event(self, text, call, it):
@@ -112,8 +117,9 @@ def rule_order(ck: Check, repo: Repo) -> None:
                             f"without .reuse/dep5 the command must raise UsageError before any effect; got"
                             f" {leaf.outcome} with effects {fx}", repo.loc(fn))
         elif d.get("dep5_exists") is True:
-            want = [("write_text", "obj.project.root / 'REUSE.toml'"), ("unlink", "obj.project.root / '.reuse/dep5'")]
-            got = [(e[0], e[1]) for e in fx]
+            from ..rules import path_norm
+            want = [("write_text", "obj.project.root / 'REUSE.toml'"), ("unlink", "obj.project.root / '.reuse' / 'dep5'")]
+            got = [(e[0], path_norm(e[1])) for e in fx]
             conv = [e for e in leaf.events if e[0] == "convert"]
             if got != want:
                 r.violation(qual, "effect order",
